@@ -89,6 +89,8 @@ func stdlib(v string) answers {
 	return a
 }
 
+var modelReadsInput = map[string]bool{"date": true, "uuid": true, "hostname": true, "ipv4": true, "ipv6": true}
+
 var dottedQuad = regexp.MustCompile(`^(?:[0-9]{1,3}\.){3}[0-9]{1,3}$`)
 
 // claimed: what the documented parser of the format says about v
@@ -363,11 +365,10 @@ func main() {
 
 	nPatterns, perPattern, perFormat, nSeq, nConc := 1250, 4, 500, 40, 40
 	if *tier == "thorough" {
-		nPatterns, perPattern, perFormat, nSeq, nConc = 8000, 5, 4000, 300, 300
+		nPatterns, perPattern, perFormat, nSeq, nConc = 5000, 5, 2500, 200, 200
 	}
 
-	if *replay != "" {
-		runReplay(*replay, res)
+	if *replay != "" && runReplay(*replay, res) {
 		res.Rule = "replay of one recorded input"
 		must(os.WriteFile(filepath.Join(*out, "cases_pattern.txt"), nil, 0o644))
 		must(os.WriteFile(filepath.Join(*out, "cases_format.txt"), nil, 0o644))
@@ -384,7 +385,7 @@ func main() {
 		text := t.Go()
 		pc := PCase{text, v, hex.EncodeToString([]byte(v)), kind}
 		ok := checkPattern(res, pc)
-		fmt.Fprintf(&pv, "(%d, %s, %s, %s, %s)\n", pidx, t.Coq(), nbytes(text), nbytes(v), b2c(ok))
+		fmt.Fprintf(&pv, "(%d%%N, %s, %s, %s, %s)\n", pidx, t.Coq(), nbytes(text), nbytes(v), b2c(ok))
 		pcases = append(pcases, pc)
 		pidx++
 		res.Count("pattern_value=" + kind)
@@ -444,7 +445,13 @@ func main() {
 		ok, name := validateFormat(c.Format, c.Value)
 		a := stdlib(c.Value)
 		checkFormat(res, c, ok, name, a, witness)
-		fmt.Fprintf(&fv, "(%d, %s, %s, %s, %s)\n", fidx, coqFormat[c.Format], nbytes(c.Value), a.coq(), b2c(ok))
+		// the model of an oracle format does not look at the input: only the modelled
+		// formats carry their bytes into Coq
+		in := "[]"
+		if modelReadsInput[c.Format] {
+			in = nbytes(c.Value)
+		}
+		fmt.Fprintf(&fv, "(%d%%N, %s, %s, %s, %s)\n", fidx, coqFormat[c.Format], in, a.coq(), b2c(ok))
 		fcases = append(fcases, c)
 		fidx++
 		exp := map[int]string{1: "valid", -1: "corrupted", 0: "hostile"}[c.Expect]
@@ -523,7 +530,7 @@ func main() {
 		must(json.Unmarshal(ob, &obs))
 		for i, h := range hs {
 			checkHistory(res, h, obs[i])
-			fmt.Fprintf(&hv, "(%d, %s, %s, %s, %s)\n", i, "["+strings.Join(h.PoolCoq, "; ")+"]", coqCalls(h.Calls), vh.CoqNatList(h.Sched), coqVerdicts(obs[i].Verdicts))
+			fmt.Fprintf(&hv, "(%d%%N, %s, %s, %s, %s)\n", i, "["+strings.Join(h.PoolCoq, "; ")+"]", coqCalls(h.Calls), vh.CoqNatList(h.Sched), coqVerdicts(obs[i].Verdicts))
 			res.Count(fmt.Sprintf("history_goroutines=%d", len(h.Calls)))
 			for _, cs := range h.Calls {
 				res.Dist["history_calls"] += len(cs)
@@ -754,15 +761,17 @@ func checkHistory(res *vh.Result, h History, o HistoryObs) {
 
 // ---------- replay ----------
 
-func runReplay(path string, res *vh.Result) {
+// runReplay re-runs one recorded input; false when the record is not a single input
+// (a crash or a race report of the concurrent runs): the whole run is repeated then.
+func runReplay(path string, res *vh.Result) bool {
 	b, err := os.ReadFile(path)
 	must(err)
 	var rp struct {
 		Input map[string]any `json:"input"`
 	}
 	if err := json.Unmarshal(b, &rp); err != nil || rp.Input == nil {
-		fmt.Println("replay file has no input")
-		os.Exit(2)
+		fmt.Println("replay: the record has no input (a broken proof or correspondence); repeating the whole run")
+		return false
 	}
 	val := func() string {
 		if h, ok := rp.Input["value_hex"].(string); ok {
@@ -778,7 +787,7 @@ func runReplay(path string, res *vh.Result) {
 		ok := checkPattern(res, pc)
 		fmt.Printf("replay: ValidatePattern(%q, %q) accepted=%v\n", p, val(), ok)
 		res.Evaluations = 1
-		return
+		return true
 	}
 	if f, ok := rp.Input["format"].(string); ok {
 		c := FCase{Format: f, Value: val()}
@@ -795,8 +804,8 @@ func runReplay(path string, res *vh.Result) {
 		}
 		fmt.Printf("replay: ValidateFormat(%q, %s) accepted=%v\n", c.Value, f, okv)
 		res.Evaluations = 1
-		return
+		return true
 	}
-	fmt.Println("replay file input is neither a pattern nor a format case")
-	os.Exit(2)
+	fmt.Println("replay: the record is not a single input; repeating the whole run with its seed")
+	return false
 }
